@@ -21,11 +21,11 @@ CASES = [
       "                for ll in range(1,L+1):\n                   \n                    rho1 = -_COM(HH, ll, self.dt, rho1, ",
       "                for ll in range(1,L):\n                   \n                    rho1 = -_COM(HH, ll, self.dt, rho1, "),
     m("restart dropped", "C02-A", P,
-      "                    rho2 = rho2 + rho1\n                rho1 = rho2    \n                \n            pr.data[indx,:,:] = rho2                        \n            indx += 1                       \n            \n        self._CLOSE_RWA(pr)",
-      "                    rho2 = rho2 + rho1\n                \n            pr.data[indx,:,:] = rho2                        \n            indx += 1                       \n            \n        self._CLOSE_RWA(pr)"),
+      "                if self.has_PDeph:\n                    rho2 = self._APPLY_DEPH(tt, rho2)\n                    \n                rho1 = rho2    \n                \n            pr.data[indx,:,:] = rho2                        \n            indx += 1                       \n            \n        self._CLOSE_RWA(pr)",
+      "                if self.has_PDeph:\n                    rho2 = self._APPLY_DEPH(tt, rho2)\n                    \n                \n            pr.data[indx,:,:] = rho2                        \n            indx += 1                       \n            \n        self._CLOSE_RWA(pr)"),
     m("restart moved inside the expansion loop", "C02-A", P,
-      "                    rho2 = rho2 + rho1\n                rho1 = rho2    \n                \n            pr.data[indx,:,:] = rho2                        \n            indx += 1                       \n            \n        self._CLOSE_RWA(pr)",
-      "                    rho2 = rho2 + rho1\n                    rho1 = rho2    \n                \n            pr.data[indx,:,:] = rho2                        \n            indx += 1                       \n            \n        self._CLOSE_RWA(pr)"),
+      "                if self.has_PDeph:\n                    rho2 = self._APPLY_DEPH(tt, rho2)\n                    \n                rho1 = rho2    \n                \n            pr.data[indx,:,:] = rho2                        \n            indx += 1                       \n            \n        self._CLOSE_RWA(pr)",
+      "                    rho1 = rho2\n                if self.has_PDeph:\n                    rho2 = self._APPLY_DEPH(tt, rho2)\n                    \n                \n            pr.data[indx,:,:] = rho2                        \n            indx += 1                       \n            \n        self._CLOSE_RWA(pr)"),
     m("state vector: accumulate replaced by assignment", "C02-A", S,
       "                    psi1 = -1j*pref*numpy.dot(HH,psi1)\n                    psi2 = psi2 + psi1\n\n                psi1 = psi2    \n                \n            pr.data[indx,:] = psi2                        \n            indx += 1       \n            \n        if self.ham.has_rwa:\n            pr.is_in_rwa = True\n            \n        return pr\n\n    def _propagate_short_exp_nonlin",
       "                    psi1 = -1j*pref*numpy.dot(HH,psi1)\n                    psi2 = psi1\n\n                psi1 = psi2    \n                \n            pr.data[indx,:] = psi2                        \n            indx += 1       \n            \n        if self.ham.has_rwa:\n            pr.is_in_rwa = True\n            \n        return pr\n\n    def _propagate_short_exp_nonlin"),
@@ -111,4 +111,23 @@ CASES += [
     {"name": "frame frequencies read in a block of their own before the guard", "kind": "twin", "edits": [
         (DME, "        if (self.is_in_rwa and sgn == 1) or sgn == -1:\n            \n            # the frame frequencies multiply times in femtoseconds\n            with energy_units(\"int\"):\n                HOmega = ham.get_RWA_skeleton()\n",
          "        with energy_units(\"int\"):\n            HOmega = ham.get_RWA_skeleton()\n        if (self.is_in_rwa and sgn == 1) or sgn == -1:\n", 1)]},
+]
+
+CASES += [
+    m("dispatch on has_relaxation again: pure dephasing without a tensor reads an unassigned tensor (the repaired defect)", "C02-I", P,
+      "        if self.has_RTensor:\n\n            ####", "        if self.has_relaxation:\n\n            ####"),
+    m("Hamiltonian-only routine consults the initial term of a tensor it may not have", "C02-I", P,
+      "        if self.has_PDeph:\n            self._BOOT_DEPH()\n        \n        indx = 1\n        for ii in self.TimeAxis.data[1:self.Nt]:",
+      "        if self.has_PDeph:\n            self._BOOT_DEPH()\n            IR = self.RelaxationTensor.Iterm\n        \n        indx = 1\n        for ii in self.TimeAxis.data[1:self.Nt]:"),
+    m("dephasing factors of the Hamiltonian-only routine booted under another flag", "C02-F", P,
+      "        if self.has_PDeph:\n            self._BOOT_DEPH()\n        \n        indx = 1\n        for ii in self.TimeAxis.data[1:self.Nt]:",
+      "        if self.has_NonHerm:\n            self._BOOT_DEPH()\n        \n        indx = 1\n        for ii in self.TimeAxis.data[1:self.Nt]:"),
+    m("Hamiltonian-only routine restarts from the iterate before the dephasing is applied", "C02-A", P,
+      "                if self.has_PDeph:\n                    rho2 = self._APPLY_DEPH(tt, rho2)\n                    \n                rho1 = rho2    \n",
+      "                rho1 = rho2    \n                if self.has_PDeph:\n                    rho2 = self._APPLY_DEPH(tt, rho2)\n"),
+    t("dispatch tests both flags", P,
+      "        if self.has_RTensor:\n\n            ####", "        if self.has_RTensor and self.has_relaxation:\n\n            ####"),
+    t("tensor stored before the flags are set", P,
+      "                self.RelaxationTensor = RTensor\n                self.has_RTensor = True\n                self.has_relaxation = True",
+      "                self.has_RTensor = True\n                self.has_relaxation = True\n                self.RelaxationTensor = RTensor"),
 ]
